@@ -363,6 +363,21 @@ fn directed(run: &mut Run, tier: Tier) {
         }
         cases.push((format!("offset reaching {} block(s) back (window {window}, block {block})", blocks_in), v, block, window, parses));
     }
+    // windows that are not a power of two (the header can only express some sizes: it must round up, never down),
+    // with one match whose offset is exactly the reported window
+    for window in [1025usize, 1536, 2047, 2049, 3000, 3072, 4097, 6000, 100_000, 131_073, 200_000, 458_752, (1 << 20) + 1] {
+        // a block may not regenerate more than the window (Block_Maximum_Size), so the spaces are at most one window
+        let block = B.min(window);
+        let mut v = cmp::unique(window, window as u32);
+        let head: Vec<u8> = v[..64].to_vec();
+        v.extend_from_slice(&head);
+        let nblocks = v.len().div_ceil(block);
+        let start = (nblocks - 1) * block;
+        assert!(window >= start, "the far match must lie within the last block");
+        let mut parses: Vec<Parse> = vec![vec![]; nblocks - 1];
+        parses.push(vec![PSeq { ll: window - start, of: window, ml: 64 }]);
+        cases.push((format!("window {window} (not a power of two), one match at offset = window"), v, block, window as u64, parses));
+    }
     cases.push(("offset 1 run".into(), { let mut v = b"ab".to_vec(); v.extend(std::iter::repeat(b'b').take(500)); v.extend_from_slice(b"cd"); v }, B, 1024, vec![vec![PSeq { ll: 2, of: 1, ml: 500 }]]));
     // Huffman block, raw-fallback block, Huffman-again block (literals just above 1024), custom matcher finds nothing
     {
@@ -475,7 +490,7 @@ pub fn main(tier: Tier, replay: Option<Value>) -> i32 {
     directed(&mut run, tier);
     table_reuse(&mut run, tier);
     run.set("exhaustive", false);
-    run.set("rule", "a scripted Matcher replays a parse through the public trait. (a) every input over {a,b} of length 3..=12/14, cut into blocks of 4 and of 11 bytes, with EVERY valid parse of every block (all tilings by literal runs and matches of length >= 3 at every offset whose source really equals the target, incl. zero-length literal runs, overlapping matches and matches into earlier blocks; per-input cap reported); (b) 64-byte periodic inputs in blocks of 32 with every parse of <= 3/4 sequences over the move set ll in {0,1,2,5} x ml in {3,4,7,16,rest} x offset in {period, 2*period, max, 1}, which are large enough to be emitted compressed; (c) parses directed at the encoder's thresholds: sequence counts at 1,2,126..129,255,256,0x7EFF..0x7F01,0x7FFF..0x8001,43689; single-sequence blocks; all literal lengths 0; every literal-length and match-length code boundary up to a whole block; offsets 1, exactly the window, exactly n blocks back for windows of 1 KiB / 128 KiB / 8 MiB; Huffman / raw fallback / Huffman block triples; > 1024 literals of a single byte value; (d) the Huffman table reuse decision: every ordered pair of alphabets that are subsets (>= 2 symbols) of 5/6 byte values x 9 frequency-profile pairs as three literal-only 1100-byte blocks (first alphabet, second, first again) through a matcher that reports no matches. Oracle: no panic, this crate's decoder and libzstd return the input, the strict walker accepts, declared window >= reported window. non-trivial = parses with at least one match");
+    run.set("rule", "a scripted Matcher replays a parse through the public trait. (a) every input over {a,b} of length 3..=12/14, cut into blocks of 4 and of 11 bytes, with EVERY valid parse of every block (all tilings by literal runs and matches of length >= 3 at every offset whose source really equals the target, incl. zero-length literal runs, overlapping matches and matches into earlier blocks; per-input cap reported); (b) 64-byte periodic inputs in blocks of 32 with every parse of <= 3/4 sequences over the move set ll in {0,1,2,5} x ml in {3,4,7,16,rest} x offset in {period, 2*period, max, 1}, which are large enough to be emitted compressed; (c) parses directed at the encoder's thresholds: sequence counts at 1,2,126..129,255,256,0x7EFF..0x7F01,0x7FFF..0x8001,43689; single-sequence blocks; all literal lengths 0; every literal-length and match-length code boundary up to a whole block; offsets 1, exactly the window, exactly n blocks back for windows of 1 KiB / 128 KiB / 8 MiB; 13 windows that are not powers of two (1025 .. 1 MiB + 1) with a match at offset = window; Huffman / raw fallback / Huffman block triples; > 1024 literals of a single byte value; (d) the Huffman table reuse decision: every ordered pair of alphabets that are subsets (>= 2 symbols) of 5/6 byte values x 9 frequency-profile pairs as three literal-only 1100-byte blocks (first alphabet, second, first again) through a matcher that reports no matches. Oracle: no panic, this crate's decoder and libzstd return the input, the strict walker accepts, declared window >= reported window. non-trivial = parses with at least one match");
     run.sample(json!({"input": "abababab", "block": 4, "parses": [[], [[0, 2, 4]]], "meaning": "second block is one match of length 4 at offset 2 with no literals"}));
     run.assume("well-behaved = literal runs and matches tile each block exactly, match length >= 3, offset <= declared window and <= data seen so far, source bytes equal target bytes; checked by the harness for every parse it feeds");
     run.finish()
